@@ -76,7 +76,9 @@ def _alarm(signum, frame):
     raise RunTimeout()
 
 
-MEM_LIMIT = int(os.environ.get("VERIF_MEM_LIMIT_MB", "4096")) * 1024 * 1024
+# (2 GB: at 4 GB a worker that had run other things before could wedge for minutes in the allocator while
+# unwinding from the MemoryError - seen with a bit-flipped cmap in C20, reproduced from its recorded schedule)
+MEM_LIMIT = int(os.environ.get("VERIF_MEM_LIMIT_MB", "2048")) * 1024 * 1024
 
 
 def limit_memory():
@@ -113,10 +115,15 @@ def _worker_loop(fn, tasks, results, per_task_timeout):
         t = time.time()
         try:
             signal.alarm(per_task_timeout)
+            # second line of defence, in C and without the GIL: a run wedged where the alarm's exception cannot
+            # reach it (inside one C call, in a finalizer, in the allocator at the address-space limit) ends
+            # the worker; the parent counts such a death as a watchdog timeout
+            faulthandler.dump_traceback_later(per_task_timeout + 20, exit=True)
             try:
                 out = ("ok", fn(arg))
             finally:
                 signal.alarm(0)
+                faulthandler.cancel_dump_traceback_later()
         except RunTimeout:
             out = ("timeout", None)
         except BaseException:  # noqa: harness-level failure, reported as such
@@ -177,8 +184,36 @@ def pool_run(fn, items, workers, per_task_timeout=120, deadline=None, on_result=
 
     feed()
     last_progress = time.time()
+    last_kill_check = [time.time()]
     hard_stall = per_task_timeout * 3 + 60
     running = {}  # pid -> key being executed
+    started = {}  # pid -> when it started that key
+    sched_log = {}  # pid -> keys it started, in order
+    grace = per_task_timeout + 45
+
+    def kill_overdue():
+        """The in-worker alarm cannot end every run: an exception raised by the signal handler is swallowed
+        when it lands in a finalizer, and a single C call is not interrupted at all. A worker that holds one
+        run for longer than the watchdog plus a grace period is killed; the run counts as a watchdog timeout."""
+        nonlocal inflight
+        now = time.time()
+        for p in list(procs):
+            t0_ = started.get(p.pid)
+            if t0_ is not None and p.pid in running and now - t0_ > grace:
+                k = running.pop(p.pid)
+                started.pop(p.pid, None)
+                try:
+                    p.kill()
+                except Exception:
+                    pass
+                if k not in out:
+                    # (the runs this worker had executed before are kept: the stall may depend on them)
+                    out[k] = ("timeout", {"killed_by_parent": True, "worker_prefix": [list(x) if isinstance(x, tuple) else x for x in sched_log.get(p.pid, [])[:-1]]}, now - t0_)
+                    inflight -= 1
+                    if on_result is not None:
+                        on_result(k, out[k])
+                procs.remove(p)
+                spawn()
 
     def reap():
         """A worker that died (segfault, OOM kill, os._exit in library code) loses exactly the run it had."""
@@ -186,8 +221,12 @@ def pool_run(fn, items, workers, per_task_timeout=120, deadline=None, on_result=
         for p in list(procs):
             if not p.is_alive() and p.pid in running:
                 k = running.pop(p.pid)
+                t0_ = started.pop(p.pid, None)
                 if k not in out:
-                    out[k] = ("died", "worker pid %d exit code %s" % (p.pid, p.exitcode), 0.0)
+                    if t0_ is not None and time.time() - t0_ >= per_task_timeout:
+                        out[k] = ("timeout", {"killed_by_parent": True, "worker_prefix": [list(x) if isinstance(x, tuple) else x for x in sched_log.get(p.pid, [])[:-1]]}, time.time() - t0_)
+                    else:
+                        out[k] = ("died", "worker pid %d exit code %s" % (p.pid, p.exitcode), 0.0)
                     inflight -= 1
                     if on_result is not None:
                         on_result(k, out[k])
@@ -199,6 +238,7 @@ def pool_run(fn, items, workers, per_task_timeout=120, deadline=None, on_result=
             key, res, wall = results.get(timeout=2)
         except queue.Empty:
             reap()
+            kill_overdue()
             feed()
             alive = [p for p in procs if p.is_alive()]
             if len(alive) < workers and (pending or inflight):
@@ -211,11 +251,19 @@ def pool_run(fn, items, workers, per_task_timeout=120, deadline=None, on_result=
             continue
         if key == "__start__":
             running[res[1]] = res[0]
+            started[res[1]] = time.time()
+            sched_log.setdefault(res[1], []).append(res[0])
             continue
         for pid, k in list(running.items()):
             if k == key:
                 del running[pid]
+                started.pop(pid, None)
+        if key in out:
+            continue  # the result of a run that was given up on (its worker was killed as overdue) - ignore
         last_progress = time.time()
+        if time.time() - last_kill_check[0] > 5:
+            last_kill_check[0] = time.time()
+            kill_overdue()
         inflight -= 1
         out[key] = (res[0], res[1], wall)
         if on_result is not None:
@@ -615,6 +663,14 @@ def check(mod, ctx, args):
         exit_code = 2
     if agg["timeouts"]:
         print("HARNESS: %d runs hit the per-run watchdog (inconclusive)" % agg["timeouts"])
+        for k in keys:
+            st_, val_, _w = res[k]
+            if st_ == "timeout" and isinstance(val_, dict) and val_.get("killed_by_parent"):
+                os.makedirs(os.path.join(REPLAY_DIR, mod.ID), exist_ok=True)
+                pth = os.path.join(REPLAY_DIR, mod.ID, "%d-stalled-%s-%d.json" % (ctx.seed, k[0], k[1]))
+                with open(pth, "w") as f:
+                    json.dump({"property": mod.ID, "seed": ctx.seed, "tier": ctx.tier, "class": "stalled-run", "note": "the worker executing this run did not return within the watchdog plus grace and was killed by the parent; prefix_runs are the runs that worker had executed before", "prefix_runs": val_.get("worker_prefix", []), "history": mod.generate(ctx, k[0], k[1])}, f, indent=1, default=str)
+                print("HARNESS: run %s:%d stalled and its worker was killed; schedule kept in %s" % (k[0], k[1], pth))
         if agg["timeouts"] > max(2, agg["evaluations"] // 50):
             exit_code = 2
 
